@@ -39,34 +39,77 @@ Definition lawful_vcomb (c : vcomb) : Prop :=
     (forall m m' o, Permutation m m' -> spec m o -> spec m' o).
 
 (* ---------------- order classes ----------------
-   E: the rows are determined as a SEQUENCE; P: as a multiset (some HashMap was iterated).
+   E: the rows are determined as a SEQUENCE; P: as a multiset (some HashMap was iterated);
+   D: as a multiset, and inside every grouped row (k, [v...]) the value list as a multiset (a
+   GroupByKey ran on rows that were themselves only known as a multiset, so the order inside each
+   group depends on the iteration order of an upstream map).
    `node_cls t c b t' c'`: node b accepts rows of element type t known up to c and delivers rows of
-   type t' known up to c'. A GroupByKey on rows known only as a multiset is outside the fragment
-   (the order inside its groups would depend on map iteration order). *)
-Inductive cls := E | P.
+   type t' known up to c'. *)
+Inductive cls := E | P | D.
+
+(* the classes in which every single row is determined exactly *)
+Definition flat (c : cls) : Prop := match c with D => False | _ => True end.
+
+(* two rows that are equal, or grouped rows with the same key whose value lists are permutations
+   of each other. Equivalently (Proofs/EngineEquiv.v, row_perm_spec):
+     row_perm (VPair k (VList l)) (VPair k' (VList l')) <-> k = k' /\ Permutation l l'
+     row_perm x y <-> x = y                                 for every other shape *)
+Definition row_perm (x y : val) : Prop :=
+  x = y \/ exists k l l', x = VPair k (VList l) /\ y = VPair k (VList l') /\ Permutation l l'.
+
+Definition rel (c : cls) (a b : list val) : Prop :=
+  match c with
+  | E => a = b
+  | P => Permutation a b
+  | D => exists a', Permutation a a' /\ Forall2 row_perm a' b
+  end.
+
+(* element-wise operators on rows of class D, as semantic side conditions on the (arbitrary) body:
+   ew_dd: related rows are mapped to outputs related in class D - in particular when the outputs
+          are related row by row (key-only filters, maps on the key, identity-like taps, repeats);
+   ew_dp: related rows are mapped to the same multiset of outputs (flattening the group,
+          permutation-invariant functions of the group such as its length or sum, projections
+          on the key) *)
+Definition ew_dd (o : dynop) : Prop :=
+  exists g, ew_fn o g /\ forall x y, row_perm x y -> rel D (g x) (g y).
+Definition ew_dp (o : dynop) : Prop :=
+  exists g, ew_fn o g /\ forall x y, row_perm x y -> Permutation (g x) (g y).
 
 Inductive node_cls : tag -> cls -> bnode -> tag -> cls -> Prop :=
 | nc_stateless : forall t c ops t',
-    Forall ew ops -> tags_ok t ops = Some t' -> node_cls t c (BStateless ops) t' c
+    flat c -> Forall ew ops -> tags_ok t ops = Some t' -> node_cls t c (BStateless ops) t' c
+| nc_stateless_dd : forall t ops t',
+    (* a block of class-D preserving operators *)
+    Forall ew_dd ops -> tags_ok t ops = Some t' -> node_cls t D (BStateless ops) t' D
+| nc_stateless_dp : forall t ops1 o ops2 t',
+    (* class-D preserving operators, one operator that forgets the order inside the groups, then
+       arbitrary element-wise operators *)
+    Forall ew_dd ops1 -> ew_dp o -> Forall ew ops2 ->
+    tags_ok t (ops1 ++ o :: ops2) = Some t' ->
+    node_cls t D (BStateless (ops1 ++ o :: ops2)) t' P
 | nc_gbk : forall t t', node_cls t E (BGroupByKey t t') t' P
+| nc_gbk_p : forall t t',
+    (* rows known as a multiset: every group's value list is determined as a multiset only *)
+    node_cls t P (BGroupByKey t t') t' D
 | nc_cv_pairs : forall t c cb tg t',
-    lawful_vcomb cb -> node_cls t c (BCombineValues cb t tg t' false) t' P
+    flat c -> lawful_vcomb cb -> node_cls t c (BCombineValues cb t tg t' false) t' P
 | nc_cv_groups : forall t c cb tp t',
-    (* lifted local on grouped rows (k, Vec<V>): the rows may come in any order, each row's
-       group list is what it is *)
+    (* lifted local on grouped rows (k, Vec<V>): the rows may come in any order and (class D) so
+       may the values inside each group: a lawful combiner is permutation-invariant *)
     lawful_vcomb cb -> node_cls t c (BCombineValues cb tp t t' true) t' P
 | nc_cg : forall t c cb lifted t' fanout,
-    lawful_vcomb cb -> node_cls t c (BCombineGlobal cb lifted t t' fanout) t' E.
+    flat c -> lawful_vcomb cb -> node_cls t c (BCombineGlobal cb lifted t t' fanout) t' E.
 
 Inductive chain_cls : tag -> cls -> list bnode -> tag -> cls -> Prop :=
 | cc_nil : forall t c, chain_cls t c [] t c
 | cc_cons : forall t c b t1 c1 r t2 c2,
     node_cls t c b t1 c1 -> chain_cls t1 c1 r t2 c2 -> chain_cls t c (b :: r) t2 c2.
 
-(* a join side: a coherent source followed by a classified chain *)
+(* a join side: a coherent source followed by a classified chain whose rows are determined
+   individually (the join pairs the VALUES of both sides) *)
 Definition side_cls (side : list snode) (t : tag) : Prop :=
   exists s bs c, side = SB (BSource s) :: map SB bs /\ coherent s /\
-                 chain_cls (s_tag s) E bs t c.
+                 chain_cls (s_tag s) E bs t c /\ flat c.
 
 (* a whole plan: source + classified chain, or dummy source + join of two classified sides +
    classified chain on the join's output *)
@@ -78,9 +121,6 @@ Inductive plan_cls : list node -> tag -> cls -> Prop :=
     coherent s0 -> side_cls lc tl -> side_cls rc tr ->
     chain_cls tj P bs t c ->
     plan_cls (NB (BSource s0) :: NCoGroup lc rc kind tl tr tj :: map NB bs) t c.
-
-Definition rel (c : cls) (a b : list val) : Prop :=
-  match c with E => a = b | P => Permutation a b end.
 
 (* structural views of a chain, to state what the planner may and may not change *)
 Definition stateless_ops (c : list node) : list dynop :=
